@@ -523,3 +523,17 @@ def handle_corpus():
 def generate_handles(outdir):
     _counter[0] = 1000
     return emit_tus(outdir, handle_corpus(), per_tu=5, prefix="htypes")
+
+
+def mt_corpus():
+    P = prim
+    s1 = struct([Member(P("i32")), Member(P("string")), Member(vec(P("u16"))), Member(opt(P("double")))], "S1")
+    t1 = table([(s1, 0, True), (vec(P("string")), 3, True), (P("int"), 7, False), (mp(P("u8"), enum("i32")), 300, True)], "T1", ("ns", "verif.T1"))
+    t1r = table([(s1, 0, True), (P("int"), 7, False), (mp(P("u8"), enum("i32")), 300, False), (P("string"), 9, True)], "T1_R", ("ns", "verif.T1"))
+    return [s1, t1, t1r, mp(P("string"), P("i64")), vec(P("string")), var(P("i32"), P("string"), vec(P("u8"))), struct([LBuf(P("u32"), 100, P("u8")), Member(P("string"))], "LBmt"),
+            opt(P("string")), tup(P("u8"), P("string"), vec(P("i64"))), vec(s1), ump(P("u16"), P("string")), res(enum("u8"), P("string"))]
+
+
+def generate_mt(outdir):
+    _counter[0] = 60000
+    return emit_tus(outdir, mt_corpus(), per_tu=3, prefix="mttypes")
